@@ -12,12 +12,64 @@
    C05_new_pat_total, C05_new_pat_getters_total, C05_read_pat_total, C05_is_pmt_total, C05_descriptor_decoders_total,
    C05_stream_max_bit_rate_total (C05Pat.v); C05_new_pmt_total .. C05_filter_pmt_packets_total (C05Pmt.v);
    C05_read_ebp_total_patched (C05_ebp.v); C05_new_scte35_total (C05Scte.v); C16_bufio_total, C17 (accumulator step),
-   C18_write_total, C18_read_from_total.
+   C18_write_total, C18_read_from_total; the printer theorems below (Proofs/PrintersTotal.v); process_I1 / Open_ok of C10.
 
-   What a group covers is written next to its definition in Exec/TotExec.v.  `_partial` marks the groups in which
-   some REAL calls have no model (printers, the state tracker): for those calls the C05 run rests on the real side
-   alone.  Calls whose model is a plain Gallina function without Res type are total by construction. *)
+   What a group covers is written next to its definition in Exec/TotExec.v.  `_partial` would mark a group in which
+   some REAL calls have no model; since the printers (Model/Printers.v: the index / slice / decoder operations of every
+   String() / Format() / fmt %v reachable from the groups, not their text), psi.CanBuildPMT and the state-tracker calls
+   are modelled, no group carries it.  What stays outside every model: the TEXT the printers produce, the clock value
+   behind EBPSuccessReadTime (the call is a field read), and package fmt itself (its rule "call Error()/String() when the
+   operand has one, else print the fields" is transcribed in Model/Printers.v; its recovery of a panicking String() is
+   deliberately not used).  Calls whose model is a plain Gallina function without Res type are total by construction. *)
 From Gots Require Import Base.Prelude Exec.ExecBase Exec.TotExec Proofs.TotExecTotal.
+From Gots Require Import Model.Pmt Model.PmtDesc Model.Pes Model.Ebp Model.Scte Model.ScteEnc Model.Printers Proofs.PrintersTotal.
+
+(* ---- the printers: "any object returned without error can be PRINTED without panicking" ----
+   A printer model is a `Res unit` with no error path, so totality is `= Ok tt`.  Each statement holds for every object
+   of the model type, hence for every object the decoder model returns (the hypothesis `decoder b = Ok x` is kept in the
+   statements about decoded objects to show the shape of the property; it is not needed). *)
+Theorem C05_print_pmt_descriptor : forall d, Printers.desc_format d = Ok tt /\ Printers.desc_string d = Ok tt.
+Proof. exact print_pmt_descriptor_stmt. Qed.
+Print Assumptions C05_print_pmt_descriptor.
+Theorem C05_print_pmt : forall b p, Pmt.new_pmt b = Ok p ->
+  Printers.pmt_string p = Ok tt /\ (forall e, In e (Pmt.streams p) -> Printers.es_string e = Ok tt) /\
+  (forall rm, Printers.pmt_string (Pmt.remove_elementary_streams p rm) = Ok tt).
+Proof. exact print_pmt_stmt. Qed.
+Print Assumptions C05_print_pmt.
+Theorem C05_print_read_pmt : forall b pid p, Pmt.read_pmt b pid = Ok p -> Printers.pmt_string p = Ok tt.
+Proof. exact print_read_pmt_stmt. Qed.
+Print Assumptions C05_print_read_pmt.
+Theorem C05_print_pes_header : forall b h, Pes.new_pes_header b = Ok h ->
+  Printers.pes_fmt_v h = Ok tt /\ Printers.pes_format h = Ok tt.
+Proof. exact print_pes_header_stmt. Qed.
+Print Assumptions C05_print_pes_header.
+Theorem C05_print_ebp : forall g b fe, Ebp.ReadEncoderBoundaryPoint g b = Ok fe -> Printers.ebp_sprint (snd fe) = Ok tt.
+Proof. exact print_ebp_stmt. Qed.
+Print Assumptions C05_print_ebp.
+(* String() of a signal, and of the signal as String() itself leaves it (it stores the re-encoded data) *)
+Theorem C05_print_scte35 : forall b s, Scte.new_scte35 b = Ok s ->
+  Printers.scte_string s = Ok tt /\ Printers.scte_string (Printers.scte_after_string s) = Ok tt.
+Proof. exact print_scte35_stmt. Qed.
+Print Assumptions C05_print_scte35.
+(* the slice expression String() ends with is in range because UpdateData ran first: the stored data ends with the CRC *)
+Theorem C05_print_scte35_crc_slice : forall s, 4 <= len (Scte.s_data (snd (ScteEnc.update_data s))).
+Proof. exact update_data_len. Qed.
+Print Assumptions C05_print_scte35_crc_slice.
+(* the index-using getters of a segmentation descriptor *)
+Theorem C05_seg_getters_total : forall d,
+  (exists o, Printers.stream_switch_signal_id d = Ok o) /\ Printers.seg_mid d = Ok tt /\ Printers.seg_components d = Ok tt.
+Proof. exact seg_getters_total_stmt. Qed.
+Print Assumptions C05_seg_getters_total.
+(* a fresh tracker fed with the descriptors of any signal, then Open() *)
+Theorem C05_tracker_calls_total : forall s, Printers.tracker_calls s = Ok tt.
+Proof. exact tracker_calls_total. Qed.
+Print Assumptions C05_tracker_calls_total.
+(* non-vacuity: the modelled operations can panic (short data, index past the end), and a stream-identifier descriptor
+   with one data byte is printed through the data[0] branch *)
+Example C05_print_ops_can_panic :
+  Printers.tail4 [1; 2; 3] = Panic /\ Printers.at_index [1; 2] 2 = Panic /\
+  Printers.desc_decode (PmtDesc.mk 82 [7]) = Ok tt /\ idx ([] : bytes) 0 = Panic.
+Proof. repeat split. Qed.
 
 (* ---- packet / adaptation field: every call of the group is modelled ---- *)
 Theorem C05Tot_pkt_read : never_bad (group g_pkt_read).
@@ -43,17 +95,15 @@ Proof. exact (group_total _ affn_ok). Qed.
 Print Assumptions C05Tot_affn.
 
 (* ---- psi ---- *)
-(* psi.CanBuildPMT(b, n) has no model of its own *)
-Theorem C05Tot_psi_accessors_partial : never_bad (group g_psi_accessors).
+Theorem C05Tot_psi_accessors : never_bad (group g_psi_accessors).
 Proof. exact (group_total _ psi_accessors_ok). Qed.
-Print Assumptions C05Tot_psi_accessors_partial.
+Print Assumptions C05Tot_psi_accessors.
 Theorem C05Tot_psi_pat : never_bad (group g_psi_pat).
 Proof. exact (group_total _ psi_pat_ok). Qed.
 Print Assumptions C05Tot_psi_pat.
-(* String() of the PMT and Format() of its descriptors are not modelled *)
-Theorem C05Tot_psi_pmt_partial : never_bad (group g_psi_pmt).
+Theorem C05Tot_psi_pmt : never_bad (group g_psi_pmt).
 Proof. exact (group_total _ psi_pmt_ok). Qed.
-Print Assumptions C05Tot_psi_pmt_partial.
+Print Assumptions C05Tot_psi_pmt.
 Theorem C05Tot_psi_done : never_bad (group g_psi_done).
 Proof. exact (group_total _ psi_done_ok). Qed.
 Print Assumptions C05Tot_psi_done.
@@ -66,25 +116,22 @@ Print Assumptions C05Tot_psi_filter.
 Theorem C05Tot_psi_readpat : never_bad (group g_psi_readpat).
 Proof. exact (group_total _ psi_readpat_ok). Qed.
 Print Assumptions C05Tot_psi_readpat.
-(* String() of the PMT is not modelled *)
-Theorem C05Tot_psi_readpmt_partial : never_bad (group g_psi_readpmt).
+Theorem C05Tot_psi_readpmt : never_bad (group g_psi_readpmt).
 Proof. exact (group_total _ psi_readpmt_ok). Qed.
-Print Assumptions C05Tot_psi_readpmt_partial.
+Print Assumptions C05Tot_psi_readpmt.
 
 (* ---- pes / ebp / scte35 ---- *)
-(* fmt %v and Format() of the header are not modelled *)
-Theorem C05Tot_pes_new_partial : never_bad (group g_pes_new).
+Theorem C05Tot_pes_new : never_bad (group g_pes_new).
 Proof. exact (group_total _ pes_new_ok). Qed.
-Print Assumptions C05Tot_pes_new_partial.
-(* fmt.Sprint of the EBP and EBPSuccessReadTime (a clock reading) are not modelled *)
-Theorem C05Tot_ebp_read_partial : never_bad (group g_ebp_read).
+Print Assumptions C05Tot_pes_new.
+(* EBPSuccessReadTime returns the stored clock reading: a field read; the value is not modelled *)
+Theorem C05Tot_ebp_read : never_bad (group g_ebp_read).
 Proof. exact (group_total _ ebp_read_ok). Qed.
-Print Assumptions C05Tot_ebp_read_partial.
-(* String() and the state-tracker calls at the end of the group are not modelled; the re-encoded bytes are
-   normalised with w8 before they are decoded again (see g_scte_new) *)
-Theorem C05Tot_scte_new_partial : never_bad (group g_scte_new).
+Print Assumptions C05Tot_ebp_read.
+(* the re-encoded bytes are normalised with w8 before they are decoded again (see g_scte_new) *)
+Theorem C05Tot_scte_new : never_bad (group g_scte_new).
 Proof. exact (group_total _ scte_new_ok). Qed.
-Print Assumptions C05Tot_scte_new_partial.
+Print Assumptions C05Tot_scte_new.
 
 (* ---- streams: over the model of bufio.Reader / the scripted reader and writer oracles ---- *)
 Theorem C05Tot_pkt_sync : never_bad (group g_pkt_sync).
